@@ -59,12 +59,12 @@ func GenTargeted(seed int64, idx int, profile string) (GCase, bool) {
 		"errors":     {famErrors, famSharedHooks, famErrors},
 		"signatures": {famSignatures, famSignatures},
 		"selection":  {famSelection, famSelection},
-		"imports":    {famImports, famImports},
-		"matching":   {famMatching, famCandidates, famCandidates, famImports, famGetterShapes},
+		"imports":    {famImports, famImportNames, famImportNames},
+		"matching":   {famMatching, famCandidates, famCandidates, famImports, famGetterShapes, famImportNames},
 		"slices":     {famSlices, famSlices},
 		"casefold":   {famCaseFlip, famCandidates},
 		"simple":     {famRefs},
-		"mixed":      {famNested, famPerMethodLists, famSharedHooks, famErrors, famSignatures, famImports, famMatching, famSlices, famRefs, famCaseFlip, famCandidates, famGetterShapes},
+		"mixed":      {famNested, famPerMethodLists, famSharedHooks, famErrors, famSignatures, famImports, famMatching, famSlices, famRefs, famCaseFlip, famCandidates, famGetterShapes, famImportNames},
 		"malformed":  {famSharedHooks, famErrors},
 	}
 	fs, ok := fams[profile]
@@ -980,6 +980,61 @@ func FromInt(n int) (int, error) { return n, nil }
 	sb.WriteString("}\n")
 	t.files[t.name+"/setup.go"] = sb.String()
 	t.files[t.name+"/types.go"] = ty
+}
+
+// ---- unnamed imports whose path does not end in the package name; local names shadowing imported types ---------
+
+func famImportNames(t *tgen) {
+	t.feat("family:import-names")
+	// (directory, declared package name)
+	shapes := [][2]string{{"go-foo", "foo"}, {"bar/v2", "bar"}, {"plain", "plain"}, {"x.y", "xy"}, {"store", "storage"}}
+	sh := shapes[t.r.Intn(len(shapes))]
+	dir, pname := sh[0], sh[1]
+	ext := fmt.Sprintf("package %s\n\ntype Status int\ntype Code string\ntype M struct {\n\tID int\n\tSt Status\n\tCo Code\n\tTags []Status\n}\n\nfunc Fill(d *M, s *M) {}\nfunc ToCode(s string) Code { return Code(s) }\n", pname)
+	local := fmt.Sprintf("package %s\n\ntype L struct {\n\tID int\n\tSt int\n\tCo string\n\tTags []int\n}\n", t.name)
+	shadow := t.ch(0.5)
+	if shadow {
+		// local objects named like the imported types: a type, a func, a var
+		local += t.pick("\ntype Status string\n", "\nfunc Status() {}\n", "\nvar Status = 1\n", "\ntype Status = int64\n")
+		t.feat("local-name-shadows-imported-type")
+	}
+	imp := fmt.Sprintf("\"exp/%s/%s\"", t.name, dir)
+	if t.ch(0.25) {
+		imp = t.pick("al", pname) + " " + imp
+	}
+	var sb strings.Builder
+	sb.WriteString(header(t, imp))
+	ref := pname
+	if strings.Contains(imp, " ") {
+		ref = strings.Split(imp, " ")[0]
+	}
+	fmt.Fprintf(&sb, "var _ %s.M\n\ntype Convergen interface {\n", ref)
+	for j := 0; j < 1+t.r.Intn(2); j++ {
+		for _, n := range []string{":typecast", ":stringer", ":case:off"} {
+			if t.ch(0.5) {
+				sb.WriteString("\t// " + n + "\n")
+			}
+		}
+		if t.ch(0.3) {
+			fmt.Fprintf(&sb, "\t// :conv %s.ToCode Co Co\n", ref)
+		}
+		if t.ch(0.3) {
+			fmt.Fprintf(&sb, "\t// :postprocess %s.Fill\n\tBoth%d(*%s.M) *%s.M\n", ref, j, ref, ref)
+			continue
+		}
+		if t.ch(0.5) {
+			fmt.Fprintf(&sb, "\tTo%d(%sL) %s%s.M\n", j, t.pick("*", ""), t.pick("*", ""), ref)
+		} else {
+			fmt.Fprintf(&sb, "\tFrom%d(%s%s.M) %sL\n", j, t.pick("*", ""), ref, t.pick("*", ""))
+		}
+	}
+	if t.ch(0.3) {
+		fmt.Fprintf(&sb, "\tExtra(s *L, more []%s.M, m map[string]*%s.M) *L\n", ref, ref)
+	}
+	sb.WriteString("}\n")
+	t.files[t.name+"/setup.go"] = sb.String()
+	t.files[t.name+"/types.go"] = local
+	t.files[t.name+"/"+dir+"/m.go"] = ext
 }
 
 // ---- slices ---------------------------------------------------------------------------------------------------
